@@ -201,10 +201,11 @@ func (r *c35Run) withSnapshots(phase, dir string, f func() error) (err error, op
 	prev := map[string]string(nil)
 	var prevOp *fsx.Op
 	inplace := false
+	pts := fsx.Points(dir, oplog)
 	for i := range snaps {
 		s := &snaps[i]
 		lab := append([]string{"phase:" + phase, "mode:crash", "op:" + s.op.Kind}, r.labels...)
-		r.rec.Eval(fmt.Sprintf("%s|%s|crash|%s#%d", r.ckey, phase, s.op.Ident(), s.op.IdentSeq), true, lab...)
+		r.rec.Eval(fmt.Sprintf("%s|%s|crash|%s#%d", r.ckey, phase, pts[s.op.Seq].ID, pts[s.op.Seq].Nth), true, lab...)
 		if d := c35Duplicates(s.alive); d != "" {
 			r.add(kit.Fail("duplicate-repository", "%s killed before operation %d %s: %s (files %v)", phase, s.op.Seq, s.op.Ident(), d, kit.SortedKeys(s.final)))
 		}
@@ -312,15 +313,15 @@ func (r *c35Run) explodePost(dir, compound string, want map[uint32]bool) string 
 	return strings.Join(bad, "; ")
 }
 
-func c35FailTargets(oplog []fsx.Op) []fsx.Op {
-	var out []fsx.Op
-	for _, op := range oplog {
-		if op.Failed {
+func c35FailTargets(dir string, oplog []fsx.Op) []fsx.Point {
+	var out []fsx.Point
+	for _, pt := range fsx.Points(dir, oplog) {
+		if pt.Op.Failed {
 			continue
 		}
-		switch op.Kind {
+		switch pt.Op.Kind {
 		case fsx.KOpen, fsx.KCreateTemp, fsx.KCreate, fsx.KOpenFile, fsx.KRename, fsx.KRemove, fsx.KRemoveAll, fsx.KMkdirAll, fsx.KMkdir, fsx.KStat:
-			out = append(out, op)
+			out = append(out, pt)
 		}
 	}
 	return out
@@ -406,18 +407,13 @@ func runC35(rec *kit.Recorder, active map[string]bool, c c35Case) error {
 	}
 
 	// ---- merge, every intercepted operation fails once
-	for _, target := range c35FailTargets(mlog) {
+	for _, target := range c35FailTargets(mdir, mlog) {
 		dir, err := r.copyOf(initial, "mfail")
 		if err != nil {
 			return err
 		}
-		id, idSeq := target.Ident(), target.IdentSeq
-		fsx.Start(fsx.Config{FailAt: func(op fsx.Op) error {
-			if op.Ident() == id && op.IdentSeq == idSeq {
-				return syscall.EIO
-			}
-			return nil
-		}})
+		id, idSeq := target.ID, target.Nth
+		fsx.Start(fsx.Config{FailAt: fsx.FailPoint(dir, id, idSeq, syscall.EIO)})
 		var out string
 		var runErr error
 		perr := kit.Guard(func() error { out, runErr = merge(dir, names(dir)); return nil })
@@ -428,7 +424,7 @@ func runC35(rec *kit.Recorder, active map[string]bool, c c35Case) error {
 				failed = &flog[i]
 			}
 		}
-		lab := append([]string{"phase:merge", "mode:fail", "fail:" + target.Kind}, r.labels...)
+		lab := append([]string{"phase:merge", "mode:fail", "fail:" + target.Op.Kind}, r.labels...)
 		key := fmt.Sprintf("%s|merge|fail|%s#%d", r.ckey, id, idSeq)
 		if failed == nil {
 			rec.Eval(key, false, append(lab, "fail-not-reached")...)
@@ -497,19 +493,14 @@ func runC35(rec *kit.Recorder, active map[string]bool, c c35Case) error {
 		r.add(kit.Fail("explode-success-without-postcondition", "explode returned nil without any fault, but: %s", bad))
 		return faultsConcludeC35(rec, active, c, r.ds)
 	}
-	for _, target := range c35FailTargets(elog) {
+	for _, target := range c35FailTargets(edir, elog) {
 		dir, err := r.copyOf(mdir, "efail")
 		if err != nil {
 			return err
 		}
 		comp := filepath.Join(dir, filepath.Base(compound))
-		id, idSeq := target.Ident(), target.IdentSeq
-		fsx.Start(fsx.Config{FailAt: func(op fsx.Op) error {
-			if op.Ident() == id && op.IdentSeq == idSeq {
-				return syscall.EIO
-			}
-			return nil
-		}})
+		id, idSeq := target.ID, target.Nth
+		fsx.Start(fsx.Config{FailAt: fsx.FailPoint(dir, id, idSeq, syscall.EIO)})
 		var runErr error
 		perr := kit.Guard(func() error { runErr = explodeCmd(comp); return nil })
 		flog := fsx.Stop()
@@ -519,7 +510,7 @@ func runC35(rec *kit.Recorder, active map[string]bool, c c35Case) error {
 				failed = &flog[i]
 			}
 		}
-		lab := append([]string{"phase:explode", "mode:fail", "fail:" + target.Kind}, r.labels...)
+		lab := append([]string{"phase:explode", "mode:fail", "fail:" + target.Op.Kind}, r.labels...)
 		key := fmt.Sprintf("%s|explode|fail|%s#%d", r.ckey, id, idSeq)
 		if failed == nil {
 			rec.Eval(key, false, append(lab, "fail-not-reached")...)
